@@ -94,7 +94,7 @@ COMB = [
     ('HvTruthOr', W3, 1, ['if xa or xb:', '    self.r.put(1)', 'else:', '    self.r.put(0)']),
     ('HvTruthNot', W3, 1, ['if not xa:', '    self.r.put(1)', 'else:', '    self.r.put(0)']),
     ('HvTruthMix', W3, 1, ['if xa and (xb or not xc):', '    self.r.put(1)', 'else:', '    self.r.put(0)']),
-    ('HvDangling', W3, 2, ['if xa > 3:', '    if xb > 3:', '        self.r.put(1)', 'else:', '    self.r.put(2)']),
+    ('HvDangling', W3, 2, ['t = 0', 'if xa > 3:', '    if xb > 3:', '        t = 1', 'else:', '    t = 2', 'self.r.put(t)']),
     ('HvNested', W3, 4, ['if xa > 3:', '    if xb > 3:', '        self.r.put(1)', '    else:', '        if xc > 3:', '            self.r.put(2)', '        else:', '            self.r.put(3)',
                          'else:', '    self.r.put(4 + (xb & 1))']),]
 
@@ -264,6 +264,11 @@ def cosim_block(D, obj, text, rnd, nseq, length, state_attrs=None, input_filter=
         lc.cfg.attr = {k2: (list(v) if isinstance(v, list) else v) for k2, v in snap_attr.items()}
         vb = Body(items, ports, strict=False)
         hist = []
+        if not is_seq:
+            try:
+                D.settle()          # a new simulator propagates once with every wire at 0 (incomplete assignments keep that value)
+            except Nondet:
+                pass
         bias = {n: rnd.choice((0.15, 0.5, 0.85)) for n in ins}
         for t in range(length):
             v = {}
